@@ -151,6 +151,40 @@ def run(ctx):
             if [of_impl(c) for c in mod.data[1:]] != [of_impl(t) for t in payload] or hash(mod) != hash(impl.Node('wrapped', *payload)):
                 ctx.violation('impl-violation', op='pool-modified', input=json.dumps(impl.to_shapes(payload)),
                               observed=repr(of_impl(mod))[:800], expected='children identical to the trees sent; hash as built locally')
+    # --- a single node as the root of a traversal (dfs and bfs accept a node as well as a list)
+    for _ in range(60 if ctx.thorough else 20):
+        t = nc.gen_tree(impl, rng, rng.choice([0, 0, 1, 3]))
+        v = of_impl(t)
+        d = list(impl.nodes.dfs(t))
+        b = list(impl.nodes.bfs(t))
+        ctx.case(['root', shape_of(v)], True)
+        ctx.count('traversals from a node root')
+        if any(not isinstance(x, impl.Node) for x in d + b) or [x.id for x in d] != spec_pre(v) or [x.id for x in b] != spec_bfs([v]):
+            ctx.violation('impl-violation', op='traversal of a node', input=json.dumps(shape_of(v)),
+                          observed=f'dfs {[str(x) for x in d][:8]}, bfs {[str(x) for x in b][:8]}',
+                          expected='the node itself, then its descendants (pre-order / by levels), every node once, nothing else')
+    # --- the allocator is unbounded in the model: identities beyond 2^31 and 2^32 (a long run on a large input allocates
+    # that many: every candidate rebuilds thousands of nodes) must stay increasing and survive pickling
+    ctr = getattr(impl.Node, '_Node__ID_COUNTER', None)
+    if hasattr(ctr, 'value'):
+        saved = ctr.value
+        for start in (2**31 - 3, 2**32 - 3):
+            try:
+                ctr.value = start
+                made = [impl.Node('w', impl.Node('k')) for _ in range(3)]
+                ids_ = [x.id for m_ in made for x in impl.nodes.dfs(m_)]
+                back = [pickle.loads(pickle.dumps(m_)) for m_ in made]
+                bad = (sorted(ids_) != list(range(start + 1, start + 1 + len(ids_))) or [of_impl(x) for x in back] != [of_impl(x) for x in made])
+                obs = f'identities {ids_}; after pickling {[x.id for m_ in back for x in impl.nodes.dfs(m_)]}'
+            except Exception as e:  # noqa
+                bad, obs = True, f'{type(e).__name__}: {e}'
+            finally:
+                ctr.value = saved
+            ctx.case(['wide ids', start], True)
+            ctx.count('allocations beyond 32 bits')
+            if bad:
+                ctx.disagree('allocator beyond 32 bits vs Model/Alloc.v', input=f'counter at {start}, nine allocations', impl=obs[:400],
+                             model=f'identities {list(range(start + 1, start + 10))}, preserved by pickling')
     # --- identities of nodes built in pool workers
     ncase, probs = nc.cross_process_probe(impl, rng, 12 if ctx.thorough else 4, redup=False, model=model)
     ctx.count('cross-process identity rounds', ncase)
